@@ -427,6 +427,58 @@ func runC11(c *Ctx) {
 			c.Sample(map[string]interface{}{"tables": k.Tables, "locals": k.Locals, "fixed": k.Fixed, "values": model.FmtAll(k.Vals)})
 		}
 	})
+	// tables large enough for ids to cross the one/two-byte boundary (127/128), with the symbols
+	// around the boundary used as values, field names and annotations
+	var big []TableCase
+	for _, ns := range []int{110, 117, 118, 119, 125, 16370} {
+		if ns > 1000 && !c.Thorough() {
+			continue
+		}
+		for variant := 0; variant < 4; variant++ {
+			syms := make([]string, ns)
+			for j := range syms {
+				syms[j] = fmt.Sprintf("big_%d", j)
+			}
+			k := TableCase{Seed: int64(ns*10 + variant), Fixed: variant >= 2}
+			if variant%2 == 0 {
+				k.Tables = []SymImport{{Name: "BIG", Version: 1, Symbols: syms, MaxID: -1}}
+			} else {
+				h := ns / 2
+				k.Tables = []SymImport{{Name: "H1", Version: 1, Symbols: syms[:h], MaxID: -1}, {Name: "H2", Version: 2, Symbols: syms[h:], MaxID: -1}}
+			}
+			var locals []string
+			for j := 0; j < 12; j++ {
+				locals = append(locals, fmt.Sprintf("loc_%d", j))
+			}
+			if k.Fixed {
+				k.Locals = locals
+			}
+			st := model.StructV()
+			l := model.SexpV()
+			use := append(append([]string{}, syms[ns-14:]...), locals...)
+			for _, t := range use {
+				st.Kids = append(st.Kids, model.SymV(model.T(t)).WithField(model.T(t)))
+				l.Kids = append(l.Kids, model.Int64V(1).WithAnn(model.T(t)), model.SymV(model.T(t)))
+			}
+			k.Vals = []*model.Value{st, l, model.SymV(model.T(syms[0])).WithAnn(model.T(locals[11]))}
+			big = append(big, k)
+		}
+	}
+	c.Parallel(len(big), func(w, i int) {
+		k := big[i]
+		c.Eval(1)
+		raw, _ := json.Marshal(k.Tables[0].Name + fmt.Sprint(len(k.Tables[0].Symbols), k.Fixed, k.Seed))
+		c.NonTrivial(string(raw))
+		if v := runTableCase(&k); v != "" {
+			mode := "shared"
+			if k.Fixed {
+				mode = "fixed"
+			}
+			k.Tables = nil // (large; the case is rebuilt from its seed on replay)
+			c.Violate("table-writer-large", mode+":"+Class(v), fmt.Sprintf("tables of %d symbols fixed=%v output=%s… :: %s", len(big[i].Tables[0].Symbols), k.Fixed, trunc200(k.OutHex), v), big[i], nil)
+		}
+	})
+	c.Obs("large_table_cases", int64(len(big)))
 }
 
 func init() {
